@@ -175,6 +175,11 @@ func relLen(n, sz int) string {
 func probe(t vlib.TB, e *Entry, kind string, in []byte) bool {
 	sub := "decode/" + e.Group
 	vlib.Eval(sub)
+	// exact-capacity copy: a slice expression b[:n] with len(b) < n <= cap(b) does not panic, so an
+	// input that merely shares the backing array of a longer valid encoding would hide missing checks
+	exact := make([]byte, len(in))
+	copy(exact, in)
+	in = exact
 	if p, st := vlib.Catch(func() { e.Call(in) }); p != nil {
 		key := "C10/panic/" + e.Name + "/" + vlib.PanicClass(p)
 		vlib.Class(sub, "panic")
